@@ -100,16 +100,20 @@ def bounds(tier, seed):
         'final_newline': [True, False],
         'index_sources': list(SOURCES),
         'every_file': 'all files of 1..3 records x all shapes x final newline or none, plain names: library build '
-                      '(open_indexed and Genome.from_file), contig lengths, every whole contig, all intervals in one call '
+                      '(open_indexed), contig lengths, every whole contig, all intervals in one call '
                       '(generic + string-encoded path) with library-written and supplied index',
         'names_with_description': 'description on every record / on every second record: all files of 1..2 records and '
                                   '3-record files of the reduced shapes',
-        'rich_extras': 'reversed batch order, reversed label order, Genome cross-section on the supplied index: files of '
-                       '1..2 records and 3-record files of the reduced shapes',
+        'rich_extras': 'reversed batch order, reversed label order, Genome.from_file(fasta).read_sequence() cross-section '
+                       '(index written by Genome.from_file, and supplied index): files of 1..2 records and 3-record files '
+                       'of the reduced shapes',
         'single_interval_calls': 'every [a,b) of every record, one call each: files of 1..2 records, plain names, generic + '
-                                 'string-encoded path, both index sources',
+                                 'string-encoded path, library-written index and - unless its bytes are identical to it - supplied index',
         'chunked_index_build': 'every k in 1..size+2: all files of 1..2 records (plain names) and 3-record files of the '
                                'reduced shapes (plain and mixed names)',
+        'duplicate_state_rule': 'operations on the supplied index are skipped when the library-written .fai is byte-identical '
+                                'to the supplied one (3-record files outside the reduced shapes; single-interval calls everywhere); '
+                                'counted in extra',
         'seed': 'unused: the whole space is enumerated in both tiers (seed only rotates shard order)',
     })
     return b
@@ -169,6 +173,7 @@ class Ctx:
         self._plain = None
         self.calls = 0
         self.library_fai_text = None       # text of the .fai written by open_indexed in op_build
+        self.encodings = {}
 
     # facts about record i / an interval (features are built from these only)
     def rec(self, i):
@@ -443,8 +448,10 @@ def _make_intervals(ctx, ivs, path):
     I = Interval.from_entry_tuples([(ctx.names[i], a, b) for (i, a, b) in ivs])
     if path == 'generic':
         return I
-    labels = list(ctx.names) if path == 'string-encoded' else list(ctx.names)[::-1]
-    return bnp.bnpdataclass.replace(I, chromosome=bnp.as_encoded_array(I.chromosome, StringEncoding(labels)))
+    if path not in ctx.encodings:       # one encoding object per label order, reused for every call on this file
+        labels = list(ctx.names) if path == 'string-encoded' else list(ctx.names)[::-1]
+        ctx.encodings[path] = StringEncoding(labels)
+    return bnp.bnpdataclass.replace(I, chromosome=bnp.as_encoded_array(I.chromosome, ctx.encodings[path]))
 
 
 def _judge_intervals(ctx, source, path, mode, order, ivs, call):
@@ -614,12 +621,13 @@ def op_nontrivial(ctx, op, info):
 
 # ------------------------------------------------------------------ program per file
 def ops_for(ctx, level):
-    """level: {'rich': bool, 'singles': bool, 'chunked': bool}.  Every file gets: library build, contig lengths, every
-    whole contig and the all-intervals batch through the generic and the string-encoded path for both index sources,
-    and the Genome cross-section on a FASTA without index.  'rich' adds the reversed batch order, the string encoding
-    with reversed label order and the Genome cross-section on the supplied index.  On files that are not 'rich' the
-    operations on the supplied index are skipped as a duplicate state when the .fai the library has just written is
-    byte-identical to the supplied one (same FASTA bytes + same index bytes = same inputs)."""
+    """level: {'rich': bool, 'singles': bool, 'chunked': bool}.  Every file gets: library build (open_indexed), contig
+    lengths, every whole contig and the all-intervals batch through the generic and the string-encoded path, for both
+    index sources.  'rich' adds the reversed batch order, the string encoding with reversed label order and the Genome
+    cross-section (Genome.from_file on a FASTA without index, which writes it, and on the supplied index).  On files
+    that are not 'rich' the operations on the supplied index are skipped as a duplicate state when the .fai the library
+    has just written is byte-identical to the supplied one (same FASTA bytes + same index bytes = same inputs); the
+    same rule is applied to the single-interval calls on every file."""
     has_unterm = any(ctx.ends_at_unterminated_full_line(i, b) for (i, a, b) in interval_list(ctx, 'all'))
     yield ['build', 'open_indexed']
     for s in SOURCES:
@@ -639,10 +647,13 @@ def ops_for(ctx, level):
         if has_unterm:
             for path in sorted({p for p, _ in plan}):
                 yield ['intervals', s, path, 'all-terminated']
-        if s == 'library' or level['rich']:
+        if level['rich']:
             yield ['genome', s]
     if level['singles']:
         for s in SOURCES:
+            if s == 'supplied' and ctx.library_fai_text == fai.fai_text(ctx.rows):
+                yield None          # same FASTA bytes + same .fai bytes as the library-index singles: duplicate state
+                continue
             for path in ('generic', 'string-encoded'):
                 for (i, a, b) in interval_list(ctx, 'all'):
                     yield ['intervals', s, path, [[i, a, b]]]
